@@ -147,8 +147,14 @@ func createCompiledRouteHandler(route *ast.Route, bytecode []byte, wsHub *websoc
 		// params) so compiled routes can read query.X the same as interpreted
 		// routes. Reuses interpreter.ProcessQueryParams to guarantee parity
 		// with interpreter mode (issue #240).
-		rawQuery := map[string][]string(ctx.Request.URL.Query())
+		// The query string is split by the interpreter's own parser as well:
+		// net/url silently drops pairs it cannot unescape and pairs containing
+		// ";", which the interpreter path rejects with 400 or keeps.
+		rawQuery, rawErr := interpreter.ExtractRawQueryParams("?" + ctx.Request.URL.RawQuery)
 		queryParams, qErr := interpreter.ProcessQueryParams(rawQuery, route.QueryParams)
+		if rawErr != nil {
+			qErr = rawErr
+		}
 		if qErr != nil {
 			// Same pattern as success responses below (ctx.StatusCode +
 			// WriteHeader): ctx.StatusCode is for middleware/logging, but
